@@ -798,7 +798,7 @@ def run(ck, tier, rng):
     for c in (cases[5], cases[2000], valid[-1]) + tuple(c for c in valid if c[0] == "grp")[:2] + tuple(
             c for c in cases[len(valid):])[20:23]:
         ck.sample([str(x) for x in c][:40], limit=10)
-    concrete_before = len(ck.violations) + len(ck.known_hits)
+    concrete_before = len(ck.violations)
     oracle_concrete = len(ck.violations)
     diffs = 0
     if ck.build.ok:
